@@ -157,6 +157,41 @@ impl Uci {
     }
 }
 
+/// Verification hook: an in-process UCI session that runs input lines through the same
+/// parser and executor as `uci_loop`.
+#[cfg(rce_verif)]
+pub mod verif {
+    use super::{UCICommand, Uci};
+    use crate::board::Board;
+
+    pub struct Session {
+        uci: Uci,
+    }
+
+    impl Session {
+        pub fn new() -> Self {
+            Self { uci: Uci::new() }
+        }
+
+        /// One input line; `Err` carries what `uci_loop` would print on stderr.
+        pub fn line(&mut self, line: &str) -> Result<(), String> {
+            let fields: Vec<_> = line.trim().split_whitespace().collect();
+            let command = UCICommand::new(&fields)
+                .map_err(|err| format!("Failed to parse command: {err}"))?;
+            if matches!(command, UCICommand::Quit) {
+                return Ok(());
+            }
+            self.uci
+                .execute_command(command)
+                .map_err(|err| format!("Failed to execute command: {err}"))
+        }
+
+        pub const fn board(&self) -> &Board {
+            &self.uci.board
+        }
+    }
+}
+
 ////////////////////////////////////////////////////////////////////////////////
 
 #[cfg(test)]
